@@ -90,6 +90,7 @@ pub trait RawOps {
     fn r_take_at(&mut self, _i: usize) -> vecdb::Result<Option<u32>> { unreachable!() }
     fn r_collect_holed(&self) -> vecdb::Result<Vec<Option<u32>>> { unreachable!() }
     fn r_reader_try_get(&self, _i: usize) -> Option<u32> { unreachable!() }
+    fn r_read_once(&self, _i: usize) -> Option<u32> { unreachable!() }
     fn r_stored_scan(&self, _from: usize, _to: usize, _io: bool) -> Vec<u32> { unreachable!() }
     fn r_has_overlay(&self) -> bool { false }
 }
@@ -103,6 +104,7 @@ macro_rules! raw_impl {
             fn r_take_at(&mut self, i: usize) -> vecdb::Result<Option<u32>> { let r = self.create_reader(); self.take_at(i, &r) }
             fn r_collect_holed(&self) -> vecdb::Result<Vec<Option<u32>>> { self.collect_holed() }
             fn r_reader_try_get(&self, i: usize) -> Option<u32> { self.reader().try_get(i) }
+            fn r_read_once(&self, i: usize) -> Option<u32> { self.read_at_once(i).ok() }
             fn r_stored_scan(&self, from: usize, to: usize, io: bool) -> Vec<u32> {
                 if io { self.fold_stored_io(from, to, vec![], |mut a, x| { a.push(x); a }) } else { self.fold_stored_mmap(from, to, vec![], |mut a, x| { a.push(x); a }) }
             }
@@ -452,6 +454,11 @@ where
                 Ok(g) if g == exp => {}
                 Ok(g) => { let e = (clause.to_string(), format!("cursor().get({i}) = {g:?}, reference contents give {exp:?}")); if has_holes { soft.push(e); } else { return Err(e); } }
                 Err(_) => { let e = (clause.to_string(), format!("cursor().get({i}) panicked, reference contents give {exp:?}")); if has_holes { soft.push(e); } else { return Err(e); } }
+            }
+            // point read by index (read_once / read_at): the element of that index, whether stored or still buffered, or nothing beyond the length
+            if V::RAW && !(exp.is_none() && i < len) && !v.r_has_overlay() {
+                let got = v.r_read_once(i);
+                if got != exp { return Err(("C08.read-once".into(), format!("read_at_once({i}) = {got:?}, reference contents give {exp:?} (stored_len {}, len {len})", v.stored_len()))); }
             }
             if V::RAW && i < v.stored_len() {
                 let overlay = exp.is_none() || v.r_has_overlay();
